@@ -175,7 +175,12 @@ func nodeCheck(prop string, props string, rule string, withMirror bool) func(c *
 			if !c.Quick() {
 				mdev, mdepth = 2, 3
 			}
-			exploreBFS(c, props, []int{0, 7, 16, 22}, mdepth, alphabet("core"), st, each)
+			bfsSeeds := []int{0, 7, 16, 22}
+			if c.Quick() && prop != "C09" {
+				// quick C06/C07: one script prefix (a precommit short of the first commit) and the seeds built on it
+				bfsSeeds = []int{7}
+			}
+			exploreBFS(c, props, bfsSeeds, mdepth, alphabet("core"), st, each)
 			exploreDeviations(c, props, mdev, st, each)
 			if prop == "C09" {
 				exploreRaces(c, props)
